@@ -39,5 +39,7 @@ func main() {
 		fmt.Fprintf(os.Stderr, "unknown property %q\n", cmd)
 		os.Exit(2)
 	}
+	os.Setenv("VERIF_TIER_INTERNAL", o.Tier)
+	os.Setenv("VERIF_SEED_INTERNAL", fmt.Sprint(o.Seed))
 	fn(o)
 }
